@@ -427,24 +427,26 @@ fn tiling(r: &mut Rng, ncols: usize, spans: bool) -> Vec<usize> {
 const CELLCH: &[char] = &['a','b','c','d','e','f','g','h','i','j','k','l','m','n','o','p','q','r','s','t','u','v','w','x','y','z','α','β','γ','δ','ε','ζ','η','θ','ι','κ','λ','μ'];
 /// A regular table: every row tiles the same number of columns.  Returns (table node, cell records).
 /// `uniq`: fill cells with copies of a per-cell unique character (C06); else ordinary tokens (C05).
-fn regular_table(g: &mut G, nrows: usize, ncols: usize, spans: bool, nest: bool, uniq: bool, next: &mut usize, cells: &mut Vec<Value>, top: bool) -> N {
+fn regular_table(g: &mut G, nrows: usize, ncols: usize, spans: bool, nest: bool, uniq: bool, next: &mut usize, cells: &mut Vec<Value>, top: bool, sparse: bool) -> N {
     let mut rows = vec![];
     for ri in 0..nrows {
         let mut tds = vec![]; let mut c0 = 0;
         for s in tiling(g.r, ncols, spans) {
-            let class = g.r.below(10);
+            let class = if sparse && g.r.chance(2, 3) { 0 } else { g.r.below(10) };
             let mut kids: Vec<N> = vec![];
             let mut count = 0usize;
             let ch = CELLCH[*next % CELLCH.len()];
             if nest && class == 9 && top {
                 let (nr, nc) = (1 + g.r.below(2) as usize, 1 + g.r.below(3) as usize);
-                kids.push(regular_table(g, nr, nc, spans, false, uniq, next, cells, false));
+                kids.push(regular_table(g, nr, nc, spans, false, uniq, next, cells, false, false));
             } else if class >= 2 {
-                let nwords = match class { 2 | 3 | 4 => 1, 5 | 6 => 1 + g.r.below(3), _ => 2 + g.r.below(6) };
+                let tiny = s > 1 && g.r.chance(1, 3);      // text shorter than the span
+                let nwords = if tiny { 1 } else { match class { 2 | 3 | 4 => 1, 5 | 6 => 1 + g.r.below(3), _ => 2 + g.r.below(6) } };
                 let mut t = String::new();
                 for wi in 0..nwords {
                     if wi > 0 { t.push(' '); }
-                    if uniq { let len = 1 + g.r.below(if class == 8 { 14 } else { 5 }); for _ in 0..len { t.push(ch); count += 1; } }
+                    if uniq { let len = if tiny { 1 } else { 1 + g.r.below(if class == 8 { 14 } else { 5 }) }; for _ in 0..len { t.push(ch); count += 1; } }
+                    else if tiny { t.push((b'a' + g.r.below(26) as u8) as char); }
                     else { t.push_str(&g.token()); }
                 }
                 if class == 7 { kids.push(N::T(t.clone())); kids.push(N::el("br", vec![])); let extra: String = if uniq { count += 2; format!("{}{}", ch, ch) } else { g.token() }; kids.push(N::T(extra)); }
@@ -467,21 +469,23 @@ fn regular_table(g: &mut G, nrows: usize, ncols: usize, spans: bool, nest: bool,
 /// C05: one regular table (1..5 x 1..6, tiling colspans, cells empty/short/long/multi-line/wide, nested
 /// regular tables, thead/tbody), plain decorator with borders, widths 1..100.
 fn c05(r: &mut Rng, i: u64, p: &HashMap<String, String>) -> Vec<Value> {
-    let (nrows, ncols) = (1 + r.below(5) as usize, 1 + r.below(6) as usize);
+    let sparse = r.chance(1, 4);
+    let (nrows, ncols) = (1 + r.below(5) as usize, 1 + r.below(if sparse { 7 } else { 6 }) as usize);
     let spans = r.chance(1, 2); let nest = r.chance(1, 3);
     let mut g = G::new(r, Feat::all());
     let mut cells = vec![]; let mut next = 0;
-    let t = regular_table(&mut g, nrows, ncols, spans, nest, false, &mut next, &mut cells, true);
+    let t = regular_table(&mut g, nrows, ncols, spans, nest, false, &mut next, &mut cells, true, sparse);
     let w = if r.chance(1, 2) { r.range(1, 30) } else { r.range(1, wmax(p, 100)) };
     vec![json!({"id": id("c05", i), "runs": [run(&doc_html(&[t]), w, cfg("plain", vec![]), "string")]})]
 }
 /// C06: as C05 without nesting, every non-empty cell filled with copies of its own unique character.
 fn c06(r: &mut Rng, i: u64, p: &HashMap<String, String>) -> Vec<Value> {
-    let (nrows, ncols) = (1 + r.below(5) as usize, 1 + r.below(6) as usize);
+    let sparse = r.chance(1, 4);
+    let (nrows, ncols) = (1 + r.below(5) as usize, 1 + r.below(if sparse { 7 } else { 6 }) as usize);
     let spans = r.chance(1, 2);
     let mut g = G::new(r, Feat::all());
     let mut cells = vec![]; let mut next = 0;
-    let t = regular_table(&mut g, nrows, ncols, spans, false, true, &mut next, &mut cells, true);
+    let t = regular_table(&mut g, nrows, ncols, spans, false, true, &mut next, &mut cells, true, sparse);
     let w = if r.chance(1, 2) { r.range(1, 30) } else { r.range(1, wmax(p, 100)) };
     vec![json!({"id": id("c06", i), "meta": {"cells": cells}, "runs": [run(&doc_html(&[t]), w, cfg("plain", vec![]), "string")]})]
 }
@@ -637,7 +641,8 @@ fn any_config(r: &mut Rng, bounded_width: bool) -> (Value, &'static str) {
 /// C01: bytes of every kind x widths {0, tiny, ordinary, 10^5, usize::MAX} x the configuration product.
 fn c01(r: &mut Rng, i: u64, p: &HashMap<String, String>) -> Vec<Value> {
     let maxdepth: u64 = p.get("depth").and_then(|s| s.parse().ok()).unwrap_or(3000);
-    let bytes: Vec<u8> = match r.below(10) {
+    let shape = r.below(11);
+    let bytes: Vec<u8> = match shape {
         0 | 1 | 2 | 3 => { let mut f = if r.chance(1, 2) { Feat::all() } else { Feat::notables() }; f.ids = r.chance(1, 3); f.sup = r.chance(1, 3);
                            let mut g = G::new(r, f); let body = g.flow(0);
                            let style = if r.chance(1, 3) { format!("<style>{}</style>", css_snippet(r)) } else { String::new() };
@@ -660,14 +665,41 @@ fn c01(r: &mut Rng, i: u64, p: &HashMap<String, String>) -> Vec<Value> {
             let mut s = String::from("<table><tr>"); for k in 0..r.range(50, 400) { s.push_str(&format!("<td>c{}</td>", k)); } s.push_str("</table>");
             s.push_str(&"x".repeat(r.range(100, 3000) as usize)); for k in 0..r.range(0, 60) { s.push_str(&format!("<a href=u{}>l</a> ", k)); }
             s.into_bytes() }
+        9 => sparse_table(r).into_bytes(),
         _ => { let mut g = G::new(r, Feat::all()); let body = g.flow(0); doc_html(&body).into_bytes() }
     };
-    let wsel = r.below(12);
-    let (w, wx): (u64, Option<&str>) = match wsel { 0 => (0, None), 1 => (1, None), 2 => (2, None), 3 => (3, None), 4 => (100000, None), 5 => (0, Some("max")), 6 => (0, Some("max-1")), _ => (r.range(1, 200), None) };
+    let wsel = if shape == 9 { 99 } else { r.below(12) };
+    // 1000 nested tables at width 10^5 and more take ~10 s each (every level draws full-width borders): keep the
+    // combination, at depth 100
+    let bytes = if (4..=6).contains(&wsel) && bytes.len() > 8000 && bytes.starts_with(b"<table><tr><td>") {
+        let unit: &[u8] = if bytes.starts_with(b"<table><tr><td><ul><li>") { b"<table><tr><td><ul><li>" } else { b"<table><tr><td>" };
+        let mut v = unit.repeat(100); v.extend_from_slice(b"deep text here"); v } else { bytes };
+    let (w, wx): (u64, Option<&str>) = match wsel { 0 => (0, None), 1 => (1, None), 2 => (2, None), 3 => (3, None), 4 => (100000, None), 5 => (0, Some("max")), 6 => (0, Some("max-1")), 99 => (r.range(1, 30), None), _ => (r.range(1, 200), None) };
     let (cfgv, route) = any_config(r, wx.is_none() && w <= 200);
     let mut run = json!({"hx": hex(&bytes), "w": w, "cfg": cfgv, "route": route});
     if let Some(x) = wx { run["wx"] = json!(x); }
     vec![json!({"id": id("c01", i), "dom": false, "runs": [run]})]
+}
+
+/// A table in which most cells (often whole columns) are empty: 1-3 rows x 2-24 columns, short words,
+/// a few colspans.  Exercises the column allocation where empty columns get no width.
+pub fn sparse_table(r: &mut Rng) -> String {
+    let rows = r.range(1, 3); let cols = r.range(2, 24);
+    let pe = *r.pick(&[50u64, 80, 95]);
+    let mut s = String::from("<table>");
+    for _ in 0..rows {
+        s.push_str("<tr>");
+        let mut c = 0;
+        while c < cols {
+            let span = if r.chance(1, 8) { r.range(2, 3).min(cols - c) } else { 1 };
+            let txt = if r.below(100) < pe { String::new() } else { let n = r.range(1, 3); (0..n).map(|_| { let l = r.range(1, 6); (0..l).map(|_| (b'a' + r.below(26) as u8) as char).collect::<String>() }).collect::<Vec<_>>().join(" ") };
+            if span > 1 { s.push_str(&format!("<td colspan={}>{}</td>", span, txt)); } else { s.push_str(&format!("<td>{}</td>", txt)); }
+            c += span;
+        }
+        s.push_str("</tr>");
+    }
+    s.push_str("</table>");
+    s
 }
 
 fn css_doc_html(style: &str, body: &[N]) -> String {
@@ -766,10 +798,12 @@ fn c18(r: &mut Rng, i: u64, p: &HashMap<String, String>) -> Vec<Value> {
                 0 => { attrs.push(("class".into(), format!("h{}", nh))); rules.push(json!({"sels": [[{"comb": "", "name": "", "star": false, "cls": [format!("h{}", nh)], "id": "", "nth": []}]], "decls": [disp]})); }
                 1 => { attrs.push(("id".into(), format!("hid{}", nh))); rules.push(json!({"sels": [[{"comb": "", "name": name.clone(), "star": false, "cls": [], "id": format!("hid{}", nh), "nth": []}]], "decls": [disp]})); }
                 2 => { attrs.push(("style".into(), "display:none".into())); }
-                3 => { attrs.push(("style".into(), "height:0;overflow:hidden".into())); }
+                3 => { let h = *r.pick(&["height:0", "height:0px", "max-height:0"]); let o = *r.pick(&["overflow:hidden", "overflow-y:hidden"]);
+                       attrs.push(("style".into(), if r.chance(1, 2) { format!("{};{}", h, o) } else { format!("{};{}", o, h) })); }
                 _ => { attrs.push(("class".into(), format!("k{}", nh)));
                        rules.push(json!({"sels": [[{"comb": "", "name": "", "star": false, "cls": [format!("k{}", nh)], "id": "", "nth": []}]],
-                                         "decls": [{"prop": "height", "val": 0, "imp": false}, {"prop": "overflow", "val": "hidden", "imp": false}]})); }
+                                         "decls": if r.chance(1, 2) { json!([{"prop": "height", "val": 0, "imp": false}, {"prop": "overflow", "val": "hidden", "imp": false}]) }
+                                                  else { json!([{"prop": "overflow", "val": "hidden", "imp": false}, {"prop": "height", "val": 0, "imp": false}]) }})); }
             }
             return true;
         }
